@@ -463,3 +463,36 @@ Proof.
       unfold tsig_matches. simpl. auto 10.
     + exact Hi.
 Qed.
+
+(* ---------------------------------------------------------------- whole runs *)
+
+Lemma HInv_new buf limit w0 : writer_new buf limit = Ok w0 -> HInv w0 ah0.
+Proof.
+  intros H. unfold writer_new in H.
+  destruct (Nat.min limit (length buf) <? header_size); [discriminate|].
+  destruct (length buf <? header_size) eqn:E; [discriminate|]. apply Nat.ltb_ge in E.
+  inversion H; subst w0. clear H.
+  constructor; cbn [w_buf w_edns w_tsig ah0 h_id h_qr h_opcode h_aa h_tc h_rd h_ra h_rcode h_edns h_tsig].
+  - simpl. lia.
+  - reflexivity.
+  - lia.
+  - exists 0%N. split; [reflexivity|]. split; [lia|reflexivity].
+  - exists 0%N. split; [reflexivity|]. split; [lia|reflexivity].
+  - reflexivity.
+  - exact I.
+Qed.
+
+Theorem hrun : forall ops d H d' outs alive, Inv_n (d_w d) -> HInv (d_w d) H -> Forall op_wf3 ops ->
+  run d ops = Ok (d', outs, alive) -> HInv (d_w d') (hreplay H ops outs).
+Proof.
+  induction ops as [|o rest IH]; intros d H d' outs alive Hn Hi Hw E.
+  - simpl in E. inversion E; subst. simpl. exact Hi.
+  - inversion Hw as [|? ? W1 W2]; subst. cbn [run] in E.
+    destruct (step d o) as [[d1 r]|e|] eqn:Es; cbn [bind] in E; try discriminate.
+    pose proof (hstep_ok d H o d1 r Hn Hi W1 Es) as Hi1.
+    pose proof (step_inv _ _ _ _ Hn Es) as Hn1.
+    destruct (stops o r).
+    + inversion E; subst. simpl. destruct rest; exact Hi1.
+    + destruct (run d1 rest) as [[[d2 rs] al]|e|] eqn:Er; cbn [bind] in E; try discriminate.
+      inversion E; subst. simpl. eapply IH; eauto.
+Qed.
